@@ -2,27 +2,27 @@ package main
 
 func init() {
 	propMeta["C02"] = meta{
-		Level:      "exploration",
-		Rule:       "one run = one booted gateway; a genuine cookie is obtained through the real login + download flow (its exp-iat <= 300 s is checked) and 4-11 cookie trials follow, each on a fresh tunnel (handshake + tunnel-create, websocket or legacy): the real token, a harness-minted twin, empty/random strings, single-character and single-bit mutations of header/payload/signature, re-signing under another key, alg none/HS384/HS512, an RS256 header over an HMAC, changed or missing iss, exp in the past, nbf/iat in the future, missing exp, JSON-serialised and nested JWS, unknown embedded access token, harmless extra header; crossed with the IdP condition for the embedded access token (valid, revoked between mint and use, 401, 5xx, garbage body, connection refused, cut mid-response) and clock jumps of 0-150 s between trials (mint-to-use age up to ~25 min); oracle: status 0 iff {MAC verifies under the configured key (verified by the harness's own HMAC) and alg == HS256 compact and iss == rdpgw and now < exp+60 s and the IdP honours the token at that moment}, refusals carry E_PROXY_COOKIE_AUTHENTICATION_ACCESS_DENIED, every acceptance is preceded by a userinfo request; non-trivial = >=4 trials; distinct = distinct trial sequence",
-		Components: comp(nil, nil),
+		Level:       "exploration",
+		Rule:        "one run = one booted gateway; a genuine cookie is obtained through the real login + download flow (its exp-iat <= 300 s is checked) and 4-11 cookie trials follow, each on a fresh tunnel (handshake + tunnel-create, websocket or legacy): the real token, a harness-minted twin, empty/random strings, single-character and single-bit mutations of header/payload/signature, re-signing under another key, alg none/HS384/HS512, an RS256 header over an HMAC, changed or missing iss, exp in the past, nbf/iat in the future, missing exp, JSON-serialised and nested JWS, unknown embedded access token, harmless extra header; crossed with the IdP condition for the embedded access token (valid, revoked between mint and use, 401, 5xx, garbage body, connection refused, cut mid-response) and clock jumps of 0-150 s between trials (mint-to-use age up to ~25 min); oracle: status 0 iff {MAC verifies under the configured key (verified by the harness's own HMAC) and alg == HS256 compact and iss == rdpgw and now < exp+60 s and the IdP honours the token at that moment}, refusals carry E_PROXY_COOKIE_AUTHENTICATION_ACCESS_DENIED, every acceptance is preceded by a userinfo request; non-trivial = >=4 trials; distinct = distinct trial sequence",
+		Components:  comp(nil, nil),
 		Assumptions: append([]string{"|now-(exp+60s)| < 2 s and tokens with a valid MAC but no exp are don't-care", "a black-holed IdP is not generated (no liveness claim)"}, commonAssumptions...),
 	}
 	propMeta["C12"] = meta{
-		Level:      "exploration",
-		Rule:       "one run = one booted gateway under a drawn download policy (selection mode roundrobin/unsigned/any/signed, host list with/without the user placeholder, host query parameter absent/listed/unlisted or a signed/forged/expired/wrong-issuer/plain query token, user-name claim with/without domain, IdP sub equal or different, SplitUserDomain, UsernameTemplate, NoUsername, client address as peer or X-Forwarded-For) and a session that is new, unauthenticated or logged in through the real callback against the stub IdP; oracle: not logged in => 302 to the provider and no gatewayaccesstoken anywhere; logged in => 400 when the policy refuses, else a file (independent line parser) whose gatewayhostname is the configured one, whose full address is in the policy result, whose token (decoded and MAC-checked without the repository) claims exactly {that host, the user (domain removed when splitting), the requesting client address, the session's IdP access token, iss rdpgw, exp <= now+300 s}, whose username/domain lines follow template/suppression; then host and token are replayed unmodified from the same address through a real tunnel (ws or legacy, after 0-240 s) and must be accepted; non-trivial = request evaluated; distinct = distinct policy/request tuple",
-		Components: comp(nil, nil),
+		Level:       "exploration",
+		Rule:        "one run = one booted gateway under a drawn download policy (selection mode roundrobin/unsigned/any/signed, host list with/without the user placeholder, host query parameter absent/listed/unlisted or a signed/forged/expired/wrong-issuer/plain query token, user-name claim with/without domain, IdP sub equal or different, SplitUserDomain, UsernameTemplate, NoUsername, client address as peer or X-Forwarded-For) and a session that is new, unauthenticated or logged in through the real callback against the stub IdP; oracle: not logged in => 302 to the provider and no gatewayaccesstoken anywhere; logged in => 400 when the policy refuses, else a file (independent line parser) whose gatewayhostname is the configured one, whose full address is in the policy result, whose token (decoded and MAC-checked without the repository) claims exactly {that host, the user (domain removed when splitting), the requesting client address, the session's IdP access token, iss rdpgw, exp <= now+300 s}, whose username/domain lines follow template/suppression; then host and token are replayed unmodified from the same address through a real tunnel (ws or legacy, after 0-240 s) and must be accepted; non-trivial = request evaluated; distinct = distinct policy/request tuple",
+		Components:  comp(nil, nil),
 		Assumptions: append([]string{"signed mode: the replay leg is skipped (the tunnel allows nothing in that mode, C03)"}, commonAssumptions...),
 	}
 	propMeta["C13"] = meta{
-		Level:      "fault_enumeration",
-		Rule:       "callback failure point (none, unknown state, state older than 2 min via clock jump, IdP refuses the code, no id_token, bad signature, wrong issuer, wrong audience, expired ID token, no user-name claim, IdP 5xx, garbage token response, code already used, IdP unreachable) x session store (cookie, file) x (first callback | session that already exists) are enumerated by seed (56 cells, 50 visits each per quick run); user-name claim name and value are drawn; oracle: after a failing callback the next /connect with the browser's jar is a redirect to the provider, never a file; after a good callback the file's user is the claim, 1-3 later requests (0-20 s apart) still yield a file for the same user, and a mutated (single character, truncated, extended, random) or foreign (second instance with regenerated keys) session cookie never yields a file; non-trivial = every run; distinct = distinct cell/claim/mutation tuple",
-		Components: comp(nil, nil),
+		Level:       "fault_enumeration",
+		Rule:        "callback failure point (none, unknown state, state older than 2 min via clock jump, IdP refuses the code, no id_token, bad signature, wrong issuer, wrong audience, expired ID token, no user-name claim, IdP 5xx, garbage token response, code already used, IdP unreachable) x session store (cookie, file) x (first callback | session that already exists) are enumerated by seed (56 cells, 50 visits each per quick run); user-name claim name and value are drawn; oracle: after a failing callback the next /connect with the browser's jar is a redirect to the provider, never a file; after a good callback the file's user is the claim, 1-3 later requests (0-20 s apart) still yield a file for the same user, and a mutated (single character, truncated, extended, random) or foreign (second instance with regenerated keys) session cookie never yields a file; non-trivial = every run; distinct = distinct cell/claim/mutation tuple",
+		Components:  comp(nil, nil),
 		Assumptions: append([]string{"state age within 2 s of 120 s is not generated", "a character flip that leaves the decoded cookie bytes unchanged (base64 slack) is the same cookie"}, commonAssumptions...),
 	}
 	propMeta["C15"] = meta{
-		Level:      "exploration",
-		Rule:       "one run = a gateway in encrypt-only or sign-and-encrypt user-token mode; a token is minted through the real login + download flow ({{ token }} in the user-name template) and one trial is made against /tokeninfo: fresh token, token after a 0-600 s clock jump, single-character mutation of one of the five JWE segments, token under another encryption key, token of the other mode under the right encryption key, wrong issuer or expired under the right keys, inner signature under another key, plain signed JWT, random string, missing/empty parameter, non-GET, restart of the gateway into the other key mode; forged tokens are built with the harness's own A128CBC-HS256/HS256 code; oracle: 200 with sub == user iff minted by this configuration and now < exp+60 s, else 403 (400, 405) and no claims in the body; the user name is not readable from the token text; non-trivial = every run; distinct = mode/user/trial kind",
-		Components: comp(nil, nil),
+		Level:       "exploration",
+		Rule:        "one run = a gateway in encrypt-only or sign-and-encrypt user-token mode; a token is minted through the real login + download flow ({{ token }} in the user-name template) and one trial is made against /tokeninfo: fresh token, token after a 0-600 s clock jump, single-character mutation of one of the five JWE segments, token under another encryption key, token of the other mode under the right encryption key, wrong issuer or expired under the right keys, inner signature under another key, plain signed JWT, random string, missing/empty parameter, non-GET, restart of the gateway into the other key mode; forged tokens are built with the harness's own A128CBC-HS256/HS256 code; oracle: 200 with sub == user iff minted by this configuration and now < exp+60 s, else 403 (400, 405) and no claims in the body; the user name is not readable from the token text; non-trivial = every run; distinct = mode/user/trial kind",
+		Components:  comp(nil, nil),
 		Assumptions: append([]string{"age within 2 s of exp+60 s is don't-care", "a character flip that leaves the decoded segment bytes unchanged is the same token"}, commonAssumptions...),
 	}
 }
